@@ -1,10 +1,9 @@
 SPECIFICATION Spec
 CONSTANTS Tiny = FALSE
  Walk = TRUE
- MaxSteps = 2
- EmitOut = TRUE
+ MaxSteps = 0
+ EmitOut = FALSE
  Seed = 0
  Stride = 1
  Bound = 0
-INVARIANTS RoundTrip Frame FormsAgree PathsDisjoint CopyRefines CopyExact
 CHECK_DEADLOCK FALSE
